@@ -685,6 +685,13 @@ Proof.
         [left; right; apply in_app_iff; tauto | left; right; apply in_app_iff; tauto |].
       destruct (r_comp (getr s r)); simpl in Hf; [destruct Hf as [<-|[]]; right; right; eauto | contradiction].
     + inversion H; subst; clear H. simpl. stale_leaf Inv.
+  - (* FOutAdd *)
+    destruct (Nat.ltb n (length (s_nodes s))); [|discriminate]. unfold g_add_out_released in H. inversion H; subst; clear H. simpl.
+    eapply stale_plain; [ | | | exact Inv]; [same_oiv_tac | k1_tac | ].
+    intros f Hf Hc. rewrite ?in_app_iff in Hf. destruct Hf as [Hf|[Hf|Hf]]; [left; right; apply in_app_iff; tauto | left; right; apply in_app_iff; tauto |].
+    destruct (n_inv (getn (s_nodes s) n)), (is_nil (n_out (getn (s_nodes s) n))); simpl in Hf;
+      repeat (destruct Hf as [<-|Hf]); try contradiction; try discriminate; right; right; eauto.
+  - (* FPhInv *) inversion H; subst; clear H. stale_leaf Inv.
 Qed.
 
 Lemma stale_on_perm : forall g slots a b, Permutation a b -> stale_on g slots a -> stale_on g slots b.
@@ -750,6 +757,11 @@ Proof.
     + unfold getN. same_oiv_tac.
     + intros f Hf _. apply in_app_iff. left. exact Hf.
     + intros f Hf Hc. apply in_app_iff in Hf. destruct Hf as [Hf|[<-|[]]]; [left; exact Hf | right; left; eauto].
+  - simpl in H. destruct (Nat.ltb slot (length (s_slots s))); [|discriminate]. inversion H; subst; clear H.
+    rewrite frames_spawn. unfold all_frames in *. simpl.
+    eapply stale_frames; [ | | exact Inv].
+    + intros f Hf _. apply in_app_iff. left. exact Hf.
+    + intros f Hf Hc. apply in_app_iff in Hf. destruct Hf as [Hf|[<-|[]]]; [exact Hf | discriminate].
 Qed.
 
 Lemma init_nodes_val : forall k j n, n_val (getn (init_nodes k j) n) = [].
